@@ -20,7 +20,7 @@ OPS = [
     "sum_bad", "cast", "cast_bad", "shares", "getitem", "getitem_bad", "setitem_arr", "setitem_arr_bad", "setitem_num",
     "setitem_nd", "setall_nd_bad", "set_values", "set_values_bad", "set_values_arr", "set_values_num", "inplace",
     "cumsum_bad", "copy", "split", "stack", "from_df", "set_df_bad", "stock", "stock_bad", "to_stock_type",
-    "set_values_bad", "setall_nd_bad", "new_bad",
+    "set_values_bad", "setall_nd_bad", "new_bad", "other_len", "other_len",
 ]
 
 step = st.fixed_dictionaries(
@@ -99,6 +99,7 @@ def run_history(desc):
         al = list(a.dims.letters)
         before = snap()
         must_raise = False
+        may_raise = False
         call = None
         add = []  # new arrays produced
         mut = None
@@ -210,6 +211,40 @@ def run_history(desc):
 
                 def call():
                     a[key] = nd
+        elif op == "other_len":
+            # an operand whose dimension has the SAME letter but another number of items (a subset or
+            # single-item version that kept its letter): the call may raise or not, but the invariant
+            # must survive and a raising call must change nothing
+            if not al:
+                continue
+            l = al[s["k"] % len(al)]
+            its = list(a.dims[l].items)
+            if s["how"] % 3 == 0:
+                other_items = its[:1]
+            elif s["how"] % 3 == 1:
+                other_items = its + ["extra item"]
+            else:
+                other_items = its[: max(1, len(its) - 1)] if len(its) > 1 else its + ["extra item"]
+            dl = [a.dims[x] if x != l else fd.Dimension(letter=l, name=a.dims[l].name, items=other_items) for x in al]
+            ods = fd.DimensionSet(dim_list=dl)
+            y = fd.FlodymArray(dims=ods, values=np.full(ods.shape, 2.0))
+            mut = ai
+            may_raise = True
+            which = s["j"] % 6
+
+            def call():
+                if which == 0:
+                    a[...] = y
+                elif which == 1:
+                    add.append(a + y)
+                elif which == 2:
+                    add.append(a * y)
+                elif which == 3:
+                    a[{l: its[0]}] = y
+                elif which == 4:
+                    add.append(y.cast_to(a.dims))
+                else:
+                    a.set_values(y.values)
         elif op == "setall_nd_bad":
             bs = bad_shape(a.dims.shape, s["how"])
             nd = np.full(bs, 2.0)
@@ -323,7 +358,7 @@ def run_history(desc):
         classes.add(op)
         if must_raise:
             require(raised is not None, f"accepted-ill-formed-{op}", f"{op} (how={s['how']}) on dims {al}{a.dims.shape} did not raise")
-        elif raised is not None:
+        elif raised is not None and not may_raise:
             from vlib.runner import classify_exception
 
             v = classify_exception(raised)
